@@ -294,6 +294,7 @@ class World:
         self.table = np.random.default_rng(1000003 * seed + 15).uniform(1.0, 2.0, 1024)
         self.counter = 0
         self.h = []
+        self.extra = []  # violations noticed inside an operation of the harness
 
     def vals(self, shape, salt, cx=False):
         np = self.np
@@ -405,8 +406,12 @@ class World:
             st.start_writing(a)
             st.append(a, 0.5)
             r, r2 = st[0], st[0]
-            if np.shares_memory(r._data_full, r2._data_full) or np.shares_memory(r._data_full, st.data[0]):
-                raise AssertionError("two reads of a storage alias each other / the stored frame")
+            if np.shares_memory(r._data_full, r2._data_full):
+                self.extra.append("two reads of one stored frame alias each other")
+            if np.shares_memory(r._data_full, st.data[0]):
+                self.extra.append("field read from a storage aliases the stored frame")
+            if np.shares_memory(a._data_full, st.data[0]):
+                self.extra.append("stored frame aliases the appended field")
             return r
         raise ValueError(op)
 
@@ -475,8 +480,9 @@ def step(W, M, op, args, check=True):
         before = [x._data_full.copy() for x in W.h]
         pre_cells = [m.cells() for m in M.handles]
     eff = M.apply(op, args)
+    W.extra = []
     r = W.apply(op, args)
-    viol = []
+    viol = [_v(W, op, x, "") for x in W.extra]
     # ---- the returned object ----
     if eff.res is None:
         if op in INPLACE and r is not W.h[args[0]]:
